@@ -35,3 +35,25 @@ Proof. split; vm_compute; reflexivity. Qed.
 (* non-vacuity: a non-trivial state satisfying the hypotheses of the pod theorems *)
 Example pod1_ok : pod_ok pod1.
 Proof. split; [discriminate|]. split; [|discriminate]. vm_compute. discriminate. Qed.
+
+(* non-vacuity of the convergence theorem: the F4 history and the canonical
+   feed of its final objects are both API-consistent histories with the same
+   final pods and nodes *)
+Example f4_hist_ok : hist_ok eps0 empty_cache f4_history /\ hist_ok eps0 empty_cache (build_events (final_objects f4_history)).
+Proof.
+  assert (Hp : pod_ok pod1) by exact pod1_ok.
+  assert (Ha : sc (no_alloc node1) <> None) by (vm_compute; discriminate).
+  split.
+  - simpl. repeat split; auto. intros old H. vm_compute in H. discriminate.
+  - vm_compute build_events. simpl. repeat split; auto. intros old H. vm_compute in H. discriminate.
+Qed.
+
+Local Instance pod_eq_dec : EqDecision pod.
+Proof. solve_decision. Defined.
+Local Instance nodeobj_eq_dec : EqDecision nodeobj.
+Proof. solve_decision. Defined.
+
+Example f4_same_final :
+  o_pods (final_objects f4_history) = o_pods (final_objects (build_events (final_objects f4_history))) /\
+  o_nodes (final_objects f4_history) = o_nodes (final_objects (build_events (final_objects f4_history))).
+Proof. split; apply (bool_decide_unpack _); vm_compute; exact I. Qed.
